@@ -260,7 +260,7 @@ def build_tu(job):
     for cname, e in emitted:
         parts.append('/* ---- extracted: %s ---- */' % cname)
         parts.append(e['text'])
-    for hname in job.get('harness_sections', [job['functions'][0]]):
+    for hname in (job['harness_sections'] if 'harness_sections' in job else [job['functions'][0]]):
         h = spec.get(('harness', hname))
         if h is None:
             raise X.ExtractError('no harness section for %s' % hname)
@@ -371,7 +371,9 @@ def run_job(job, tier='quick', log=print):
         res['status'] = 'compile-error'
         res['notes'].append((r['out'] + r['err'])[-3000:])
         return res
-    igb, r = B1.instrument(gb, entry, job.get('enforce'), job.get('replace', []), loop_contracts=job.get('loop_contracts', True))
+    tu_text = open(cfile).read()
+    replace = [g for g in job.get('replace', []) if re.search(r'\b%s\s*\(' % re.escape(g), tu_text)]   # only callees that are called
+    igb, r = B1.instrument(gb, entry, job.get('enforce'), replace, loop_contracts=job.get('loop_contracts', True))
     res['cmds'].append(r['cmd'])
     if r['rc'] != 0:
         res['status'] = 'instrument-error'
@@ -388,7 +390,7 @@ def run_job(job, tier='quick', log=print):
     # when some other obligation is too hard to decide (a failing obligation must not hide behind a timeout)
     gb2, r2 = B1.compile_goto(cfile, OUT, entry, defines + ['VP_NO_CANARY'], [PRELUDE, ROOT], suffix='.sof')
     if r2['rc'] == 0:
-        igb2, r3 = B1.instrument(gb2, entry, job.get('enforce'), job.get('replace', []), loop_contracts=job.get('loop_contracts', True))
+        igb2, r3 = B1.instrument(gb2, entry, job.get('enforce'), replace, loop_contracts=job.get('loop_contracts', True))
         if r3['rc'] == 0:
             members.append(dict(label='cadical-sof', igb=igb2, solver='cadical', extra=list(job.get('cbmc_flags', [])) + ['--stop-on-fail'], sof=True))
     rs = B1.portfolio(members, timeout, need_all=(tier == 'thorough' and job.get('agree', True)), object_bits=job.get('object_bits', 12))
